@@ -43,10 +43,11 @@ const (
 	symFDIn
 	symFDDealer
 	symFDOut
+	symFDMe
 	nSyms
 )
 
-var symNames = [...]string{"Start", "NextTimeout", "End", "Running", "HB(valid)", "HB(junk)", "HB(out-of-range)", "HP(valid)", "HP(junk)", "HP(out-of-range)", "FD(in)", "FD(dealer)", "FD(out-of-range)"}
+var symNames = [...]string{"Start", "NextTimeout", "End", "Running", "HB(valid)", "HB(junk)", "HB(out-of-range)", "HP(valid)", "HP(junk)", "HP(out-of-range)", "FD(in)", "FD(dealer)", "FD(out-of-range)", "FD(me)"}
 
 type mState int
 
@@ -191,7 +192,8 @@ func (f *dkgFixture) newInstance(proc crypto.DKGProcessor) (crypto.DKGState, err
 // concretise turns an abstract sequence into concrete calls (pseudo-random per occurrence).
 func (f *dkgFixture) concretise(r *rand.Rand, seq []int) []concreteCall {
 	out := make([]concreteCall, len(seq))
-	oor := []int{-1, f.n, 255, math.MaxInt, -1 << 40, 256}
+	// out-of-range values, incl. the ones congruent to this participant's own index modulo 256 and 2^32
+	oor := []int{-1, f.n, 255, math.MaxInt, -1 << 40, 256, f.me + 256, f.me - 256, f.me + 512, f.dealer + 256, f.me + 1<<32, f.n + 256}
 	for i, sym := range seq {
 		c := concreteCall{sym: sym}
 		inRange := func() int {
@@ -263,6 +265,8 @@ func (f *dkgFixture) concretise(r *rand.Rand, seq []int) []concreteCall {
 			}
 		case symFDOut:
 			c.idx = oor[r.IntN(len(oor))]
+		case symFDMe:
+			c.idx = f.me
 		}
 		out[i] = c
 	}
@@ -459,7 +463,7 @@ func hexPayloads(calls []concreteCall) []string {
 // C10: DKG API state machine.
 func C10(run *mon.Run) {
 	maxLen := run.Pick(4, 5)
-	run.Rule = fmt.Sprintf("exhaustive: every abstract call sequence of length <= %d over the 13-symbol alphabet {Start, NextTimeout, End, Running, HB x3, HP x3, FD x3} for 3 protocols x {dealer, participant}, each symbol concretised pseudo-randomly (origins, payloads from honest companions or junk); plus random sequences of length <= 25; every call's class and Running() judged by the model of Appendix C, and a twin run without the rejected calls must behave identically; shape = (protocol, role, abstract sequence) hashed", maxLen)
+	run.Rule = fmt.Sprintf("exhaustive: every abstract call sequence of length <= %d over the 14-symbol alphabet {Start, NextTimeout, End, Running, HB x3, HP x3, FD x4 (another participant, the dealer, out of range, this participant itself)} for 3 protocols x {dealer, participant}, each symbol concretised pseudo-randomly (origins, payloads from honest companions or junk); plus random sequences of length <= 25; every call's class and Running() judged by the model of Appendix C, and a twin run without the rejected calls must behave identically; shape = (protocol, role, abstract sequence) hashed", maxLen)
 	run.Assumptions = []string{"restarting an instance after End is outside the quantifier (such Start symbols are dropped)", "seeds are valid (bad seeds are C09's subject)", "DKG instances are deterministic given constructor arguments and seed"}
 	type fx struct {
 		f   *dkgFixture
